@@ -1,5 +1,6 @@
 pub mod c13;
 pub mod conn;
+pub mod notif;
 
 use crate::runner::Prop;
 use std::sync::Arc;
@@ -10,6 +11,8 @@ pub fn all() -> Vec<Arc<dyn Prop>> {
         Arc::new(conn::ConnProp { id: "C06" }),
         Arc::new(conn::ConnProp { id: "C07" }),
         Arc::new(conn::ConnProp { id: "C08" }),
+        Arc::new(notif::NotifProp { id: "C11" }),
+        Arc::new(notif::NotifProp { id: "C12" }),
         Arc::new(c13::C13),
     ]
 }
